@@ -162,8 +162,10 @@ def rand_record_input(rng):
     extra = ("LB", "RB", "q", "PLUS", "n", "1")      # data that looks like a placeholder must stay data
     items = [rand_text(rng, 40, extra) for _ in range(nitems)]
     ix = rng.sample(range(0, 100000), nitems)
-    if rng.random() < 0.3:
-        ix[0] = rng.choice([0, 9, 10, 99])
+    if rng.random() < 0.3:          # small ordinals too (ordinals are unique: selectItem keys the selection by them)
+        small = rng.choice([0, 9, 10, 99])
+        if small not in ix:
+            ix[0] = small
     cur = 0 if rng.random() < 0.1 else rng.randint(1, nitems)
     sel = []
     if rng.random() < 0.6:
